@@ -572,7 +572,7 @@ def literals(test, pol=True, subst=None):
     return {(canon(test, subst), pol)}
 
 
-def guard_literals(cfg, target, subst=None):
+def guard_literals(cfg, target, subst=None, with_done=False):
     """All literals (text, polarity) that hold on every path to target,
     plus loop-membership markers ('iter <loop target> in <iter>', True)."""
     out = set()
@@ -582,7 +582,7 @@ def guard_literals(cfg, target, subst=None):
         elif c.kind == "loop":
             if l == "iter":
                 out.add(("for %s in %s" % (canon(c.ast.target), canon(c.ast.iter, subst)), True))
-            else:
+            elif with_done:
                 out.add(("done %s in %s" % (canon(c.ast.target), canon(c.ast.iter, subst)), True))
     return out
 
